@@ -11,6 +11,7 @@ STRINGS = ["hello", "", "shared", "x", "héllo", "a\nb", "shared2"]
 class ClassSpec:
     def __init__(self, name):
         self.name = name
+        self.access = W.ACC_PUBLIC
         self.sfields = []  # (name, type)
         self.ifields = []
         self.methods = []  # MethodSpec
@@ -36,6 +37,10 @@ def gen_program(rng, nclasses=None):
     classes = []
     for i in range(n):
         c = ClassSpec("Lr/K%d;" % i)
+        # every kind of class can carry code: interfaces (static / default methods, <clinit>), annotations, enums, abstract and synthetic classes
+        c.access = rng.choice([W.ACC_PUBLIC] * 4 + [0, W.ACC_PUBLIC | W.ACC_FINAL, W.ACC_PUBLIC | W.ACC_ABSTRACT, W.ACC_PUBLIC | W.ACC_INTERFACE | W.ACC_ABSTRACT,
+                               W.ACC_INTERFACE | W.ACC_ABSTRACT, W.ACC_PUBLIC | W.ACC_INTERFACE | W.ACC_ABSTRACT | W.ACC_ANNOTATION, W.ACC_PUBLIC | W.ACC_FINAL | W.ACC_ENUM,
+                               W.ACC_SYNTHETIC])
         used = set()
         for j in range(rng.randrange(0, 4)):
             sfx = rng.choice(SFX)
@@ -47,6 +52,10 @@ def gen_program(rng, nclasses=None):
         for j in range(rng.randrange(1, 4)):
             static = rng.random() < 0.5
             c.methods.append(MethodSpec(c.name, rng.choice(["m", "run", "shared"]) + str(j), rng.choice(["V", "I"]), rng.choice([(), ("I",), ("J", "I")]), static))
+        if rng.random() < 0.25:
+            c.methods.append(MethodSpec(c.name, "<clinit>", "V", (), True))
+        if rng.random() < 0.25:
+            c.methods.append(MethodSpec(c.name, "<init>", "V", rng.choice([(), ("I",)]), False))
         classes.append(c)
     ext_methods = [W.Mth("Lext/E;", "em", "V", ()), W.Mth("Lext/E;", "em", "I", ("I",)), W.Mth("Ljava/lang/Object;", "toString", "Ljava/lang/String;", ()),
                    W.Mth("Lr/K0;", "notDefined", "V", ())]
@@ -134,11 +143,11 @@ def gen_program(rng, nclasses=None):
 def to_model(classes):
     model = W.DexModel()
     for c in classes:
-        k = model.add_class(c.name)
+        k = model.add_class(c.name, c.access)
         for nm, ty in c.sfields:
             k.add_field(nm, ty, W.ACC_STATIC | W.ACC_PUBLIC)
         for nm, ty in c.ifields:
             k.add_field(nm, ty, W.ACC_PUBLIC)
         for m in c.methods:
-            k.add_method(m.name, m.ret, m.params, (W.ACC_STATIC if m.static else 0) | W.ACC_PUBLIC, W.Code(16, sum(2 if p in "JD" else 1 for p in m.params) + (0 if m.static else 1), 4, m.insns))
+            k.add_method(m.name, m.ret, m.params, (W.ACC_STATIC if m.static else 0) | (W.ACC_CONSTRUCTOR if m.name.startswith("<") else W.ACC_PUBLIC), W.Code(16, sum(2 if p in "JD" else 1 for p in m.params) + (0 if m.static else 1), 4, m.insns))
     return model
